@@ -27,25 +27,38 @@ except Exception as e:
 EOF
 )
 DEMO_NAME=$(echo "$DEMO_CMD" | grep -o -- "--test [A-Za-z0-9_]*" | head -1 | awk '{print $2}')
+APPEND_TO=$(echo "$DEMO_CMD" | grep -o ">> *src/[A-Za-z0-9_/.]*\.rs" | head -1 | sed 's/>> *//')
+LIB_FILTER=$(echo "$DEMO_CMD" | grep -o -- "--lib [A-Za-z0-9_:]*" | head -1 | awk '{print $2}')
+place_demo(){
+  if [ -n "$DEMO_NAME" ]; then cp "$SRC/demo.rs" "tests/$DEMO_NAME.rs"; else cat "$SRC/demo.rs" >> "$APPEND_TO"; fi
+}
+remove_demo(){
+  if [ -n "$DEMO_NAME" ]; then rm -f "tests/$DEMO_NAME.rs"; else
+    # restore the file the demo was appended to, keeping the fault if it is applied
+    git checkout -q -- . ; if [ "${FAULT_ON:-0}" = 1 ]; then git apply --whitespace=nowarn "$SRC/patch.diff"; fi
+  fi
+}
 if [ -n "$DEMO_NAME" ] && [ -f "$SRC/demo.rs" ]; then
-  cp "$SRC/demo.rs" "tests/$DEMO_NAME.rs"
   RUN_DEMO="cargo test --offline --test $DEMO_NAME"
+elif [ -n "$APPEND_TO" ] && [ -n "$LIB_FILTER" ] && [ -f "$SRC/demo.rs" ]; then
+  RUN_DEMO="cargo test --offline --lib $LIB_FILTER"
 else
-  # in-crate demo: meta.json must carry the exact command; demo.rs is appended by the seeder's own instructions
-  echo "$NAME: non-integration demo (cmd: $DEMO_CMD) - needs manual handling"; res true false manual - - false; cleanup; exit 3
+  echo "$NAME: cannot interpret demo_cmd: $DEMO_CMD"; res true false manual - - false; cleanup; exit 3
 fi
+FAULT_ON=1
+place_demo
 if ! cargo build --offline --tests >/tmp/vs_work/$NAME.build.log 2>&1; then res true false - - - false; cleanup; exit 1; fi
 fails=0
 for i in 1 2 3; do
   if ! timeout 600 $RUN_DEMO >/tmp/vs_work/$NAME.demo_fault_$i.log 2>&1; then fails=$((fails+1)); fi
 done
 # full suite with the fault (demo excluded)
-rm -f "tests/$DEMO_NAME.rs"
+remove_demo
 timeout 3000 cargo nextest run --workspace --no-fail-fast --test-threads 8 --offline >/tmp/vs_work/$NAME.suite.log 2>&1
 SUITE=$(grep -E "^ *Summary" /tmp/vs_work/$NAME.suite.log | tail -1 | sed 's/.*tests run: //')
 FAILED=$(grep -E "^ +(FAIL|TIMEOUT|SIGABRT|SIGSEGV)" /tmp/vs_work/$NAME.suite.log | awk '{print $NF}' | sort -u | grep -v reinvite_answer_audio_codecs_follow_remote_offer_subset | tr '\n' ' ')
 # without the fault
-git checkout -q -- . ; cp "$SRC/demo.rs" "tests/$DEMO_NAME.rs"
+git checkout -q -- . ; FAULT_ON=0; place_demo
 passes=0
 for i in 1 2 3; do
   if timeout 600 $RUN_DEMO >/tmp/vs_work/$NAME.demo_clean_$i.log 2>&1; then passes=$((passes+1)); fi
